@@ -179,6 +179,52 @@ def reportsOK (cmds : List Cmd) (reps : List (Nat × Bytes)) : Bool :=
   sortNat (reps.map (·.1)) == sortNat (cmds.map (·.delnum)) &&
   reps.all (fun r => (match r.2 with | l :: _ => isLetter l | [] => false) && !r.2.contains 0)
 
+/-! ### the life of a child and the report written for it (round-4 seeds)
+
+The report for a delivery must reflect how *its* child ended. The harness records, interleaved with the
+program's output, what the world knows: `born` (fork() succeeded, a child now runs for the delivery),
+`reaped` (wait() handed that child's status to the program) and `call` (the program calls `report()`
+for the delivery, with this wait status). The predicate: `report()` is called for a delivery only
+after wait() has handed over the status of the child forked for it, and with exactly that status —
+never before the child's fate is known, never with the status an earlier child left in the slot; the
+report written for the call is `K` only for exit 0 without a signal and `Z` for a child killed by a
+signal. So the relayed verdict never upgrades a crash to success, whatever the child wrote, whenever
+it closed its output descriptors, in every order of EOF and SIGCHLD. Reports without a call are
+`docmd()`'s own (they are the subject of `reportsOK`/`opensOK`). -/
+
+inductive Life
+  | born (slot : Nat)
+  | reaped (slot wstat : Nat)
+  | call (slot wstat : Nat)
+  | report (slot : Nat) (body : Bytes)
+  deriving Repr
+
+/-- is report `body` allowed for a child that ended with wait status `w`? -/
+def statusOK (w : Nat) (body : Bytes) : Bool :=
+  (body.head? != some 75 || (w % 128 == 0 && w / 256 == 0)) && (w % 128 == 0 || body.head? == some 90)
+
+def lifeSet (s : Nat) (v : Option Nat) (m : List (Nat × Option Nat)) : List (Nat × Option Nat) :=
+  (s, v) :: m.filter (fun e => e.1 != s)
+
+/-- `m` maps a slot to `none` (child running, status unknown to the program) or `some w` (reaped with `w`);
+    a slot without entry has no child. `pend` = the `report()` call whose report has not been seen yet -/
+def lifeGo : List (Nat × Option Nat) → Option (Nat × Nat) → List Life → Bool
+  | _, pend, [] => pend.isNone
+  | m, pend, .born s :: r => lifeGo (lifeSet s none m) pend r
+  | m, pend, .reaped s w :: r => if (m.lookup s).isSome then lifeGo (lifeSet s (some w) m) pend r else lifeGo m pend r
+  | m, pend, .call s w' :: r =>
+      pend.isNone &&
+      (match m.lookup s with
+       | some (some w) => w' == w
+       | _ => false) && lifeGo m (some (s, w')) r
+  | m, pend, .report s b :: r =>
+      match pend with
+      | some (s', w) => s' == s && statusOK w b && lifeGo (m.filter (fun e => e.1 != s)) none r
+      | none => lifeGo m none r
+
+/-- **`report()` gets the wait status of the delivery's own child, and no crash is relayed as success** -/
+def lifeOK (l : List Life) : Bool := lifeGo [] none l
+
 end spawn
 
 /-! ## qmail-send report reader -/
